@@ -28,6 +28,7 @@ RULE = (
     ' Directed: 6-12 threads of one interpreter call digital_rf.get_unix_time concurrently on indices whose calenda'
     'r fields all differ (150k calls each in the quick tier); every result must be exact.'
 )
+RULE += ' Since rounds 7-8: each conversion may be preceded by a failing conversion, a failing / unrelated libc calendar call, or a conversion at a rate sharing the numerator or denominator.'
 ASSUMPTIONS = [
     "private helpers digital_rf_get_timestamp_floor / digital_rf_get_sample_ceil are reached through ctypes on a shared object built from /repo/c/lib/rf_write_hdf5.c",
     "libFuzzer executions are counted from -print_final_stats; a campaign is pinned only approximately by -seed",
